@@ -36,11 +36,42 @@ func (a pairObs) equal(b pairObs) bool {
 
 // c13Parse parses with the default parser, or with one that records validation errors when the pairing is
 // prefixed with "rep|" (the recorded errors are a public observable of both sides too).
+//
+// A start "url\x1dname" is that URL after the named PRE-HISTORY (operations applied to the original before the
+// pairing is made): values that have lived - a list that was filled and emptied again, a path that was long and
+// got shorter - keep spare capacity and recycled storage that a freshly parsed value does not have.
 func c13Parse(pairing, s string) (*url.Url, error) {
-	if strings.HasPrefix(pairing, "rep|") {
-		return c15Reporting.Parse(s)
+	pre := ""
+	if i := strings.Index(s, "\x1d"); i >= 0 {
+		s, pre = s[:i], s[i+1:]
 	}
-	return url.Parse(s)
+	var u *url.Url
+	var err error
+	if strings.HasPrefix(pairing, "rep|") {
+		u, err = c15Reporting.Parse(s)
+	} else {
+		u, err = url.Parse(s)
+	}
+	if err == nil && pre != "" {
+		c13PreHistories[pre](u)
+	}
+	return u, err
+}
+
+var c13PreNames = []string{"list-emptied-by-setter", "list-emptied-by-amp", "list-emptied-by-delete", "list-grown", "path-shortened", "hash-cleared", "host-and-port-reset"}
+var c13PreHistories = map[string]func(u *url.Url){
+	"list-emptied-by-setter": func(u *url.Url) { u.SearchParams(); u.SetSearch("") },
+	"list-emptied-by-amp":    func(u *url.Url) { u.SearchParams(); u.SetSearch("&") },
+	"list-emptied-by-delete": func(u *url.Url) {
+		sp := u.SearchParams()
+		for _, n := range []string{"a", "b", "q", "r"} {
+			sp.Delete(n)
+		}
+	},
+	"list-grown":          func(u *url.Url) { sp := u.SearchParams(); sp.Append("z", "9"); sp.Append("y", "8"); sp.Delete("y") },
+	"path-shortened":      func(u *url.Url) { u.SetPathname("/a/b/c/d/e"); u.SetPathname("/a") },
+	"hash-cleared":        func(u *url.Url) { u.SetHash("x"); u.SetHash("") },
+	"host-and-port-reset": func(u *url.Url) { u.SetHost("k.test:99"); u.SetPort(""); u.SetUsername(""); u.SetPassword("") },
 }
 
 func buildPair(start, pairing string, timing int) (a, b *url.Url, err error) {
@@ -232,9 +263,20 @@ func init() {
 			if c.Thorough() {
 				depth = 3
 			}
+			// pre-histories: only with the pairings that copy the most, from the starts that have a query
+			nPlain := len(starts)
+			for _, st := range []string{"http://h/p?a=1&b=2#f", "foo:/p?a=1", "file:///C:/d?a=b", "http://u:p@h.test:81/d1/d2/f?q=1&r=2#frag"} {
+				for _, pre := range c13PreNames {
+					starts = append(starts, st+"\x1d"+pre)
+				}
+			}
+			prePairings := map[string]bool{"clone": true, "resolve:": true, "resolve:#f": true, "resolve:?q": true, "resolve:x": true}
 			c.Space("pairs")
-			for _, st := range starts {
+			for si, st := range starts {
 				for _, pg := range pairings {
+					if si >= nPlain && !prePairings[pg] {
+						continue
+					}
 					for timing := 0; timing < 3; timing++ {
 						for side := 0; side < 2; side++ {
 							if !c.Mine() || c.Expired() {
